@@ -7,7 +7,7 @@ use crate::model::{MV, json};
 use proptest::prelude::*;
 use serde::{Deserialize, Serialize};
 
-pub const RULE: &str = "programs from a recursion grammar: shape in {self, mutual (2 and 3 functions), via / where / map / filter / reduce callback, the callee handed straight to into / where / element-wise via (no call expression in the cycle), do-block body, anonymous cycle through a record method / a list element / self-application} x per-call expression nesting 1..32 of kind {arithmetic chain, list nesting, record nesting, conditionals, call-argument nesting, mixture} x {unbounded, bounded with depth 100..900 for plain shapes}; enumerated: every shape x nesting {1, 2, 4, 8} x 2 kinds (runaway and 200-300 deep) and nesting {16, 24, 32} x all kinds (runaway; 900 deep for plain shapes); random beyond that; single-line shapes are also typed statement by statement into the interactive CLI on a pseudo-terminal (same 8 MiB stack limit). Each is run in the release `blots` binary built from the working tree with RLIMIT_STACK = 8 MiB (the default main-thread stack), RLIMIT_AS 6 GiB and a 60 s timeout. Unbounded programs must exit with status 1 and report `maximum call depth`; a signal or exit 101 is a violation. Bounded programs must exit 0 with the arithmetically expected value. Non-trivial = per-call nesting >= 2 or a callback / mutual / anonymous shape; distinct by program text.";
+pub const RULE: &str = "programs from a recursion grammar: shape in {self, mutual (2 and 3 functions), via / where / map / filter / reduce callback, the callee handed straight to into / where / element-wise via (no call expression in the cycle), do-block body, anonymous cycle through a record method / a list element / self-application} x per-call expression nesting 1..32 of kind {arithmetic chain, list nesting, record nesting, conditionals, call-argument nesting, mixture, field / index access under ??}, each also in a source that starts with a non-ASCII comment, x {unbounded, bounded with depth 100..900 for plain shapes}; enumerated: every shape x nesting {1, 2, 4, 8} x 2 kinds (runaway and 200-300 deep) and nesting {16, 24, 32} x all kinds (runaway; 900 deep for plain shapes); random beyond that; single-line shapes are also typed statement by statement into the interactive CLI on a pseudo-terminal (same 8 MiB stack limit). Each is run in the release `blots` binary built from the working tree with RLIMIT_STACK = 8 MiB (the default main-thread stack), RLIMIT_AS 6 GiB and a 60 s timeout. Unbounded programs must exit with status 1 and report `maximum call depth`; a signal or exit 101 is a violation. Bounded programs must exit 0 with the arithmetically expected value. Non-trivial = per-call nesting >= 2 or a callback / mutual / anonymous shape; distinct by program text.";
 pub const ASSUMPTIONS: &[&str] = &[
     "only the real binary decides; a timeout or memory-limit hit is counted as inconclusive, never as a violation",
     "error-swallowing sort_by callbacks are excluded (they turn runaway recursion into exponential work and are not in the statement's list)",
@@ -18,7 +18,7 @@ pub struct Case {
     /// 0 self, 1 mutual2, 2 mutual3, 3 via, 4 where, 5 map, 6 filter, 7 reduce, 8 do-block, 9 record method, 10 list element, 11 self-application
     pub shape: u8,
     pub nesting: u8,
-    /// 0 arithmetic, 1 list, 2 record, 3 conditional, 4 call argument, 5 mixture
+    /// 0 arithmetic, 1 list, 2 record, 3 conditional, 4 call argument, 5 mixture, 6 / 7 access under ??; 8.. = 0.. after a non-ASCII header comment
     pub kind: u8,
     /// Some(depth): bounded variant
     pub bounded: Option<u16>,
@@ -34,7 +34,7 @@ fn wrap(inner: &str, nesting: u8, kind: u8) -> (String, u32) {
     let mut s = inner.to_string();
     let mut adds = 0;
     for level in 0..nesting {
-        let k = if kind == 5 { level % 5 } else { kind };
+        let k = if kind == 5 { level % 5 } else if kind >= 8 { kind - 8 } else { kind };
         s = match k {
             0 => {
                 adds += 1;
@@ -43,6 +43,9 @@ fn wrap(inner: &str, nesting: u8, kind: u8) -> (String, u32) {
             1 => format!("[{}][0]", s),
             2 => format!("{{a: {}}}.a", s),
             3 => format!("(if true then {} else 0)", s),
+            // an access that is the left operand of `??`
+            6 => format!("({{a: {}}}.a ?? 0)", s),
+            7 => format!("([{}][0] ?? 0)", s),
             _ => format!("idf({})", s),
         };
     }
@@ -77,7 +80,9 @@ pub fn program(c: &Case) -> (String, Option<f64>) {
             None => (w, adds),
         }
     };
-    let mut src = String::from("idf = q => q\n");
+    // kinds 8.. are kinds 0.. in a source that starts with a non-ASCII comment (byte offsets and
+    // character offsets of the call sites differ)
+    let mut src = if c.kind >= 8 { String::from("// 再帰の深さを数える — считаем глубину рекурсии — βάθος\nidf = q => q\n") } else { String::from("idf = q => q\n") };
     let start = c.bounded.map(|d| d as i64).unwrap_or(0);
     let mut per_level = 1;
     match c.shape {
@@ -236,7 +241,7 @@ impl Recursion {
 }
 
 pub fn strategy() -> BoxedStrategy<Case> {
-    (0u8..15, prop_oneof![3 => 1u8..5, 2 => 5u8..13, 1 => 13u8..33], 0u8..6, prop::option::weighted(0.35, 100u16..900))
+    (0u8..15, prop_oneof![3 => 1u8..5, 2 => 5u8..13, 1 => 13u8..33], 0u8..16, prop::option::weighted(0.35, 100u16..900))
         .prop_map(|(shape, nesting, kind, bounded)| {
             // bounded variants: plain shapes only (callback shapes consume several call levels per step)
             let bounded = if matches!(shape, 0 | 1 | 2 | 8 | 9 | 10 | 11 | 12) { bounded } else { bounded.map(|d| d.min(250)) };
@@ -250,7 +255,7 @@ pub fn run(ctx: &mut Ctx) {
     let mut fixed = Vec::new();
     for shape in 0..15u8 {
         for nesting in [1u8, 2, 4, 8] {
-            for kind in [0u8, 4] {
+            for kind in [0u8, 4, 6, 7, 8, 13] {
                 fixed.push(Case { shape, nesting, kind, bounded: None, repl: false });
                 fixed.push(Case { shape, nesting, kind, bounded: Some(if matches!(shape, 3..=7 | 13 | 14) { 200 } else { 300 }), repl: false });
             }
